@@ -87,7 +87,7 @@ def mc_cases(chk, scope, emit=True, timeout=1500):
     res = tlc.run("MC_Wire", workdir=chk.workdir, env={"WIRE_SCOPE": scope, "WIRE_EMIT": "1" if emit else "0"},
                   timeout=timeout, heap="4g")
     chk.add_tlc(res, "MC_Wire[%s]" % scope)
-    cases = res.out
+    cases = sorted(res.out, key=lambda c: json.dumps(c, sort_keys=True))   # TLC's print order varies with 16 workers
     for c in cases:
         c["schema"] = glue.strip_gen(c["schema"])
     return cases
